@@ -12,10 +12,10 @@ const c06SrcU = `package u
 
 import (
 	_ "zzmod/e1"
-	_ "zzmod/e2"
+	_ "zzmod/x/dup"
 	_ "zzmod/e3"
-	_ "zzmod/e4"
-	_ "zzmod/e5"
+	_ "zzmod/z/u"
+	_ "zzmod/y/dup"
 )
 `
 
@@ -23,16 +23,19 @@ import (
 // imports, each item filed under (declaring package path, name). Five imports; any subset of them exports a fact; the
 // facts of e2 and e5 carry annotations with arbitrary (opaque) names, the others are empty.
 func ZZC06Merge() {
+	// e2 and e5 are two different packages with the SAME package name (dup); e4 has the importer's own name (u)
+	paths := map[string]string{"e1": "zzmod/e1", "e2": "zzmod/x/dup", "e3": "zzmod/e3", "e4": "zzmod/z/u", "e5": "zzmod/y/dup"}
+	names := map[string]string{"e1": "e1", "e2": "dup", "e3": "e3", "e4": "u", "e5": "dup"}
 	files := []nd.File{}
 	for _, p := range []string{"e1", "e2", "e3", "e4", "e5"} {
-		files = append(files, nd.File{Pkg: "zzmod/" + p, Name: "e.go", Src: "package " + p + "\n"})
+		files = append(files, nd.File{Pkg: paths[p], Name: "e.go", Src: "package " + names[p] + "\n"})
 	}
 	files = append(files, nd.File{Pkg: "zzmod/u", Name: "u.go", Src: c06SrcU})
 	prog := nd.LoadProgram(files, nil)
 
 	has := map[string]bool{}
 	for _, p := range []string{"e1", "e2", "e3", "e4", "e5"} {
-		has["zzmod/"+p] = nd.Bool("fact_" + p)
+		has[paths[p]] = nd.Bool("fact_" + p)
 	}
 	t2, c2, f2 := nd.Atom("e2_type"), nd.Atom("e2_ctor"), nd.Atom("e2_field")
 	t5, fn5 := nd.Atom("e5_type"), nd.Atom("e5_func")
@@ -43,9 +46,11 @@ func ZZC06Merge() {
 	}
 	fact5 := annotations.PackageAnnotations{
 		TestonlyAnnotations:    []annotations.TestOnlyAnnotation{{Kind: annotations.TestOnlyOnType, ObjectName: t5}, {Kind: annotations.TestOnlyOnFunc, ObjectName: fn5}},
-		PackageOnlyAnnotations: []annotations.PackageOnlyAnnotation{{Kind: annotations.TestOnlyOnFunc, ObjectName: fn5, AllowedPackages: []string{"zzmod/e5", "w"}}},
+		PackageOnlyAnnotations: []annotations.PackageOnlyAnnotation{{Kind: annotations.TestOnlyOnFunc, ObjectName: fn5, AllowedPackages: []string{"zzmod/y/dup", "w"}}},
 	}
-	facts := Facts{"zzmod/e1": {}, "zzmod/e2": &fact2, "zzmod/e3": {}, "zzmod/e4": {}, "zzmod/e5": &fact5}
+	t4 := nd.Atom("e4_type")
+	fact4 := annotations.PackageAnnotations{ImmutableAnnotations: []annotations.ImmutableAnnotation{{OnType: t4}}}
+	facts := Facts{"zzmod/e1": {}, "zzmod/x/dup": &fact2, "zzmod/e3": {}, "zzmod/z/u": &fact4, "zzmod/y/dup": &fact5}
 	visible := Facts{}
 	for k, v := range facts {
 		if has[k] {
@@ -65,16 +70,17 @@ func ZZC06Merge() {
 	po := indexing.BuildPackageOnlyIndex[*annotations.PackageOnlyCheckerFact](pass, &local)
 
 	// arbitrary query
-	qp := nd.Enum("q_pkg", "zzmod/u", "zzmod/e1", "zzmod/e2", "zzmod/e5", "zzmod/other")
+	qp := nd.Enum("q_pkg", "zzmod/u", "zzmod/e1", "zzmod/x/dup", "zzmod/y/dup", "zzmod/z/u", "zzmod/other")
 	qn := nd.Atom("q_name")
 	qm := nd.Atom("q_member")
-	e2 := has["zzmod/e2"]
-	e5 := has["zzmod/e5"]
-	nd.Assert(imm.Contains(qp, qn) == nd.Or(nd.And(qp == "zzmod/u", qn == lt), nd.And(e2, qp == "zzmod/e2", qn == t2)), "immutable index = local + direct imports' facts, by declaring path")
-	nd.Assert(ctor.Match(qp, qm, qn) == nd.And(e2, qp == "zzmod/e2", qn == t2, qm == c2), "constructor index")
-	nd.Assert(mut.Match(qp, qm, qn) == nd.And(e2, qp == "zzmod/e2", qn == t2, qm == f2), "mutable-field index")
-	nd.Assert(tt.Contains(qp, qn) == nd.And(e5, qp == "zzmod/e5", qn == t5), "testonly type index")
-	nd.Assert(tf.Match(qp, qn, qn) == nd.And(e5, qp == "zzmod/e5", qn == fn5), "testonly func index")
-	nd.Assert(po.HasAnyFunctionAttachments(qp, qn) == nd.And(e5, qp == "zzmod/e5", qn == fn5), "packageonly index: item")
-	nd.Assert(po.HasPkgFunctionAttachment(qp, qn, "w") == nd.And(e5, qp == "zzmod/e5", qn == fn5), "packageonly index: allow-list entry")
+	e2 := has["zzmod/x/dup"]
+	e5 := has["zzmod/y/dup"]
+	e4 := has["zzmod/z/u"]
+	nd.Assert(imm.Contains(qp, qn) == nd.Or(nd.And(qp == "zzmod/u", qn == lt), nd.And(e2, qp == "zzmod/x/dup", qn == t2), nd.And(e4, qp == "zzmod/z/u", qn == t4)), "immutable index = local + direct imports' facts, by declaring path")
+	nd.Assert(ctor.Match(qp, qm, qn) == nd.And(e2, qp == "zzmod/x/dup", qn == t2, qm == c2), "constructor index")
+	nd.Assert(mut.Match(qp, qm, qn) == nd.And(e2, qp == "zzmod/x/dup", qn == t2, qm == f2), "mutable-field index")
+	nd.Assert(tt.Contains(qp, qn) == nd.And(e5, qp == "zzmod/y/dup", qn == t5), "testonly type index")
+	nd.Assert(tf.Match(qp, qn, qn) == nd.And(e5, qp == "zzmod/y/dup", qn == fn5), "testonly func index")
+	nd.Assert(po.HasAnyFunctionAttachments(qp, qn) == nd.And(e5, qp == "zzmod/y/dup", qn == fn5), "packageonly index: item")
+	nd.Assert(po.HasPkgFunctionAttachment(qp, qn, "w") == nd.And(e5, qp == "zzmod/y/dup", qn == fn5), "packageonly index: allow-list entry")
 }
